@@ -148,6 +148,14 @@ func (fs *TarReader) Next() (f *File, err error) {
 	if err != nil {
 		return nil, err
 	}
+	// Global extended headers, as written by 'git archive', describe the
+	// archive and are not entries of the tree
+	for h.Typeflag == gnutar.TypeXGlobalHeader {
+		h, err = fs.r.Next()
+		if err != nil {
+			return nil, err
+		}
+	}
 
 	info := h.FileInfo()
 
